@@ -5,15 +5,17 @@ Run with C16 (`naming_correspondence(res)` at the end of c16.explore; theorems i
 Forked children synthesise PROGRAMS — one or two modules (`types.ModuleType` registered in `sys.modules`, source compiled
 with `dont_inherit=True`), plus bindings injected afterwards (an import of a class into the other module) — from
 
-  class trees   for a module called M = H....T (`vmnm`: H = T; `vmnm_pk.sub`): a top-level class named A | Item | H | T | XT
-      x its nested classes: none | one of B, Item, T, H, XT, A | two of them
+  class trees   for a module called M = H....T (`vmnm`: H = T; `vmnm_pk.sub`): a top-level class named A | Item | H | T | MyT
+      x its nested classes: none | one of B, Item, T, H, MyT, A | two of them
       x a class nested in the first of those: none | C | Item | T | B
       x a second top-level class: none | one with the short name of each nested class | B
     (so: nesting one and two levels deep, an outer class named like its module, like the head / tail of a dotted module name,
-    ending with the module's name; a top-level class shadowing the short name of a nested one); every fifth tree of `vmnm`
+    ENDING with the module's name (`Myvmnm`), the module's name behind a dot (`A.vmnm.C`); a top-level class shadowing the
+    short name of a nested one); every fifth tree of `vmnm`
     is also executed in a second module `vmnm_b` (same-named classes in two modules, a class named like the OTHER module),
     which imports the first top-level class of `vmnm` under another name;
-  function-local classes   `def fn(): class loc: class M` with fn = f | T | H (a function named like the module) and
+  function-local classes   `def fn(): class loc: class M` with fn = f | T | H | MyT (a function named like the module, or with
+      a name ending with the module's name) and
       loc = L | B, the class kept nowhere in a namespace | under its own short name | under another name; a class local to a
       static method, to a method, to a function local to a function;
   NewTypes and TypeAliasTypes   typing.NewType / typing_extensions.TypeAliasType / typing.TypeAliasType / the `type`
@@ -30,6 +32,9 @@ aliases) the real
    (ii)  `refs.evaluate(<that reference>)` — the identity of what comes back, or the exception class
    (iii) `refs.forwardref(text, module=m)` and its evaluation for the texts: every binding path of the modules up to depth 3,
          the (locals-free) qualified name of every object, each bare and prefixed with `m.`, a missing name, a missing attribute
+   (iv)  the same reference for texts naming SEVERAL module-qualified classes (`m.P | m.A.B`, `dict[str, m.P]`,
+         `typing.Optional[m.P]`, `P | m.A.B`, `list[m.P]|m.A.B` over the class paths of the module): the text of the reference
+         against `forwardrefOfText`, its evaluation against Python's own `eval` of the expression without the qualifiers
 
 are compared with `forwardrefOfClass` / `qualnameOf` / `nameOf`, `evaluateRef`, `forwardrefOfText`; and the description of
 every program Python guarantees must satisfy the theorems' hypothesis `wf`.
@@ -59,7 +64,7 @@ def _uniq(xs):
 
 def _names(mod):
     comps = mod.split(".")
-    return comps[0], comps[-1], "X" + comps[-1]
+    return comps[0], comps[-1], "My" + comps[-1]
 
 
 # --------------------------------------------------------------------------- programs
@@ -131,8 +136,8 @@ KEEP_MODES = {"none": "KEEP.append(_made[0])", "own": "{loc} = _made[0]", "other
 
 
 def locals_programs(mod):
-    head, tail, _ = _names(mod)
-    for fn in _uniq(["f", tail, head]):
+    head, tail, mytail = _names(mod)
+    for fn in _uniq(["f", tail, head, mytail]):
         for loc in ("L", "B"):
             for mode, keep in KEEP_MODES.items():
                 src = LOCALS_SRC.format(fn=fn, loc=loc, keep=keep.format(loc=loc))
@@ -253,14 +258,34 @@ def describe(mods):
     return {"objs": objs, "binds": binds}, by_id, ids
 
 
-def _paths(ns, mod, depth=3):
+def _paths(ns, mod, depth=3, targets=False):
     out, frontier = [], [([b["name"]], b["target"]) for b in ns["binds"] if b.get("mod") == mod]
     for _ in range(depth):
         nxt = []
         for p, t in frontier:
-            out.append(".".join(p))
+            out.append((".".join(p), t) if targets else ".".join(p))
             nxt += [(p + [b["name"]], b["target"]) for b in ns["binds"] if b.get("obj") == t]
         frontier = nxt
+    return out
+
+
+EXPR_TEMPLATES = ["{a} | {b}", "dict[str, {a}]", "typing.Optional[{a}]", "{bare} | {b}", "list[{a}]|{b}"]
+
+
+def exprs_of(ns, mods):
+    """[(text, module, the same expression without module qualifiers)]: texts naming several module-qualified classes."""
+    classes = {o["id"] for o in ns["objs"] if o["kind"] == "cls"}
+    out = []
+    for m in mods:
+        ps = [p for p, t in _paths(ns, m, targets=True) if t in classes]
+        # deepest paths first: they are the ones with enclosing classes named like / ending with the module's name
+        ps = sorted(_uniq(ps), key=lambda p: -p.count("."))[:5]
+        for i, p1 in enumerate(ps):
+            p2 = ps[(i + 1) % len(ps)]
+            for tpl in EXPR_TEMPLATES:
+                if "{bare}" in tpl and p1.startswith(m + "."):
+                    continue   # a bare text starting with the module's name is read as module-qualified (item 27)
+                out.append([tpl.format(a=f"{m}.{p1}", b=f"{m}.{p2}", bare=p1), m, tpl.format(a=p1, b=p2, bare=p1)])
     return out
 
 
@@ -341,7 +366,21 @@ def observe_program(prog):
     for t, m in texts_of(ns, [name for name, _ in prog["modules"]]):
         r, shown = _ref(lambda: refs.forwardref(t, module=m))
         texts.append({"text": t, "module": m, "ref": shown, "eval": _evaluated(refs, r, ids) if r is not None else None})
-    return {"ns": ns, "objs": objs, "texts": texts}
+    import sys
+    exprs = []
+    for t, m, plain in exprs_of(ns, [name for name, _ in prog["modules"]]):
+        r, shown = _ref(lambda: refs.forwardref(t, module=m))
+        want = _safe(lambda: eval(plain, dict(vars(sys.modules[m]))))
+        if r is None:
+            same = False
+        else:
+            try:
+                same = bool(refs.evaluate(r) == want)
+            except Exception as e:  # noqa: BLE001
+                same = type(e).__name__
+        exprs.append({"text": t, "module": m, "plain": plain, "ref": shown, "eval_is_python_eval": same,
+                      "python_eval": repr(want)[:120]})
+    return {"ns": ns, "objs": objs, "texts": texts, "exprs": exprs}
 
 
 def _child(batch):
@@ -380,7 +419,7 @@ def observe(progs=None, nproc=8):
     ops = []
     for o in seen:
         ops.append({"op": "naming.ref", "ns": o["ns"], "classes": [x["id"] for x in o["objs"]]})
-        ops.append({"op": "naming.text", "ns": o["ns"], "texts": [[t["text"], t["module"]] for t in o["texts"]]})
+        ops.append({"op": "naming.text", "ns": o["ns"], "texts": [[t["text"], t["module"]] for t in o["texts"] + o["exprs"]]})
     model = lean.drive(ops) if ops else []
     for m in model:
         if "bad" in m:
@@ -433,13 +472,30 @@ def naming_correspondence(res):
                         "what": "TypeContext does not find, under a class, the value stored under the forward reference naming it "
                                 f"(typing.ForwardRef({shown!r}, module={d['module']!r})): ctx[cls] / ctx.get(cls, 'default') = {orc}",
                         "input": {**brief, "refs.forwardref(cls)": obj["ref"]}})
+        for t, m in zip(o["exprs"], mt["results"][len(o["texts"]):]):
+            brief = {"family": "naming-corr", "naming_layout": layout, "text": t["text"], "module": t["module"]}
+            res.case(brief, True)
+            if m["pre_befc63c"]["ref"] != m["ref"]:
+                res.count("naming:expr:befc63c-matters")
+            if t["ref"] == m["ref"] and t["eval_is_python_eval"] is True:
+                res.count("naming:expr:ok")
+            else:
+                res.count("naming:expr:DISAGREE")
+                res.disagreements.append({
+                    "what": "naming: the reference made from a text naming several module-qualified classes differs from forwardrefOfText, "
+                            "or its evaluation is not what Python's eval makes of the expression without the qualifiers",
+                    "input": {**brief, "ns": o["ns"]},
+                    "real": {"ref": t["ref"], "refs.evaluate(ref) == eval(plain)": t["eval_is_python_eval"]},
+                    "model": {"ref": m["ref"], "plain": t["plain"], "python_eval": t["python_eval"]}})
         for t, m in zip(o["texts"], mt["results"]):
             brief = {"family": "naming-corr", "naming_layout": layout, "text": t["text"], "module": t["module"]}
             res.case(brief, True)
             if _agree(t["ref"], t["eval"], m):
                 res.count("naming:text:ok:" + ("found" if t["eval"] and "id" in t["eval"] else (t["eval"] or t["ref"]).get("err", "?")))
-                if not m["no_occ"]:
-                    res.count("naming:text:module-name-occurs-in-text")
+                if m["prefixed"]:
+                    res.count("naming:text:starts-with-module-name")
+                if (m["pre_befc63c"]["ref"], m["pre_befc63c"]["resolves_to"]) != (m["ref"], m["resolves_to"]):
+                    res.count("naming:text:befc63c-matters")
             else:
                 res.count("naming:text:DISAGREE")
                 res.disagreements.append({
